@@ -330,7 +330,9 @@ func (e *Exec) loopHeader(b *ssa.BasicBlock, preds []*ssa.BasicBlock) {
 	var invInit []Term
 	if spec != nil {
 		for _, inv := range spec.invariant {
+			e.root().goalGroups = invGroups(inv)
 			invInit = append(invInit, e.invExpr(inv.expr, b, entryVals, false))
+			e.root().goalGroups = nil
 		}
 	}
 	// havoc cells written in the loop
@@ -397,15 +399,32 @@ func (e *Exec) loopHeader(b *ssa.BasicBlock, preds []*ssa.BasicBlock) {
 			}
 		}
 		for k, inv := range spec.invariant {
+			e.root().curGroup = inv.name
 			t := e.invExpr(inv.expr, b, cur, true)
-			e.assume(implies(reach, t))
+			e.root().curGroup = ""
+			ireach := reach
+			if inv.name != "" {
+				ireach = and(reach, e.g.group(inv.name))
+			}
+			before := len(e.g.decls)
+			e.assume(implies(ireach, t))
+			if inv.name != "" {
+				if e.g.declGroup == nil {
+					e.g.declGroup = map[int]string{}
+				}
+				for i := before; i < len(e.g.decls); i++ {
+					if strings.HasPrefix(e.g.decls[i], "(assert") {
+						e.g.declGroup[i] = inv.name
+					}
+				}
+			}
 			if e.parent == nil {
-				e.root().invRecords = append(e.root().invRecords, invRecord{head: b, cur: cur, expr: inv.expr, reach: reach})
+				e.root().invRecords = append(e.root().invRecords, invRecord{head: b, cur: cur, expr: inv.expr, reach: ireach, group: inv.name})
 			}
 			if e.parent == nil && !e.noObl {
 				ti := invInit[k]
 				r := e.root()
-				r.obls = append(r.obls, Obligation{Name: fmt.Sprintf("%s.loop%d.inv%d.init", e.w.fnKey(e.fn), l.ordinal, k+1), Kind: "inv", Cond: reach, Goal: ti, Pos: b.Instrs[0].Pos(), Fn: e.w.fnKey(e.fn)})
+				r.obls = append(r.obls, Obligation{Name: fmt.Sprintf("%s.loop%d.inv%d.init", e.w.fnKey(e.fn), l.ordinal, k+1), Kind: "inv", Cond: reach, Goal: ti, Pos: b.Instrs[0].Pos(), Fn: e.w.fnKey(e.fn), Groups: invGroups(inv)})
 			}
 		}
 		if e.parent == nil && !e.noObl {
@@ -470,6 +489,11 @@ func (e *Exec) loopHeader(b *ssa.BasicBlock, preds []*ssa.BasicBlock) {
 			if len(e.bound) == 0 {
 				for _, c := range e.root().goalSk {
 					e.g.assert(implies(and(reach, "(<= "+lo+" "+c+")", "(< "+c+" "+hi+")"), strings.ReplaceAll(cont, "@J@", c)))
+					if nx != nil && nx.IsString {
+						// a goal constant read as a byte position: the rune ordinal that covers it
+						ro := "(rune_of " + e.term(nx.Iter.(*ssa.Range).X) + " " + c + ")"
+						e.g.assert(implies(and(reach, "(<= "+lo+" "+ro+")", "(< "+ro+" "+hi+")"), strings.ReplaceAll(cont, "@J@", ro)))
+					}
 				}
 			}
 			e.root().summaries = append(e.root().summaries, loopSummary{l: l, K: K, init: initT, cont: cont, reach: reach, nested: len(e.bound) > 0, shift: shift})
@@ -480,10 +504,56 @@ func (e *Exec) loopHeader(b *ssa.BasicBlock, preds []*ssa.BasicBlock) {
 // invRecord remembers a declared invariant assumed at a loop head, so that later instantiation terms (for example the
 // image of a goal constant under a sort permutation) can be fed to it.
 type invRecord struct {
+	group string
 	head  *ssa.BasicBlock
 	cur   map[*ssa.Phi]Term
 	expr  *Expr
 	reach Term
+}
+
+// existsInv: does a declared loop invariant of the function contain an existential?  (Only then are the iteration
+// indices used as extra instantiation points; the additional instances slow the solvers down on the other functions.)
+func (e *Exec) existsInv() bool {
+	if e.existsInvMemo == 0 {
+		e.existsInvMemo = 1
+		if ct := e.w.contractOf(e.fn); ct != nil {
+			for _, ls := range ct.loops {
+				for _, inv := range ls.invariant {
+					if hasExists(inv.expr) {
+						e.existsInvMemo = 2
+					}
+				}
+			}
+		}
+	}
+	return e.existsInvMemo == 2
+}
+
+// witnessesFor: the named witnesses of the ungrouped invariants and of the groups a goal switches on.
+func (e *Exec) witnessesFor(groups []string) []Term {
+	var out []Term
+	for _, c := range e.assumeWit {
+		grp := e.witGroup[c]
+		ok := grp == ""
+		for _, g := range groups {
+			if g == grp {
+				ok = true
+			}
+		}
+		if ok {
+			out = append(out, c)
+		}
+	}
+	return out
+}
+
+// invGroups: the invariant groups an invariant's own obligations switch on (its own group and the ones it names).
+func invGroups(inv *Clause) []string {
+	var gs []string
+	if inv.name != "" {
+		gs = append(gs, inv.name)
+	}
+	return append(gs, inv.using...)
 }
 
 type loopSummary struct {
@@ -508,6 +578,10 @@ func (e *Exec) bindNext(nx *ssa.Next, k Term) {
 	key := e.def(nx.Name()+"_k", "Int", "(rune_pos "+s+" "+k+")")
 	v := e.def(nx.Name()+"_v", "Int", "(rune_val "+s+" "+k+")")
 	e.vals[nx] = val{tup: []val{{t: ok}, {t: key}, {t: v}}}
+	// the byte position of the current rune: a candidate witness / instantiation point for byte-indexed contracts
+	if e.parent == nil && len(e.bound) == 0 {
+		e.root().loopKs = append(e.root().loopKs, key)
+	}
 }
 
 // contOf builds Cont(j): from the header with induction value j, control returns to the header.
@@ -667,11 +741,21 @@ func (e *Exec) invExpr(x *Expr, head *ssa.BasicBlock, phiVals map[*ssa.Phi]Term,
 	defer func() { e.curBlock = savedBlock }()
 	if asAssumption {
 		env.instAt = append(append([]Term{}, e.root().goalSk...), e.root().extraInst...)
+		if e.root().existsInv() {
+			// invariants with existentials: the iteration indices are the usual witnesses and instantiation points
+			env.instAt = append(env.instAt, e.root().loopKs...)
+		}
 	} else {
 		env.goalSk = e.root().goalSk
+		// candidate witnesses for existentials in the invariant, and instantiation points for its hypotheses
+		if e.root().existsInv() {
+			env.hypInst = append(append([]Term{}, e.root().loopKs...), e.root().witnessesFor(e.root().goalGroups)...)
+		}
 	}
+	env.entryVars = map[string]typedTerm{}
 	for i, p := range e.fn.Params {
 		env.vars[p.Name()] = typedTerm{t: e.root().params[i], typ: p.Type()}
+		env.entryVars[p.Name()] = env.vars[p.Name()]
 	}
 	// single-assignment locals by their source names (current contents for cell-backed ones)
 	for name, v := range e.w.localNames(e.fn) {
@@ -742,9 +826,32 @@ func (e *Exec) invExpr(x *Expr, head *ssa.BasicBlock, phiVals map[*ssa.Phi]Term,
 			}
 		}
 	}
+	// the synthetic range index of loop N is also addressable as rangeindex#N (nested range loops share the plain name)
+	for hb, hl := range e.loops.header {
+		if hb != head && !hb.Dominates(head) {
+			continue
+		}
+		for _, in := range hb.Instrs {
+			phi, ok := in.(*ssa.Phi)
+			if !ok {
+				break
+			}
+			if phi.Comment != "rangeindex" {
+				continue
+			}
+			key := fmt.Sprintf("rangeindex#%d", hl.ordinal)
+			if hb == head {
+				if t, ok := phiVals[phi]; ok {
+					env.vars[key] = typedTerm{t: t, typ: phi.Type()}
+				}
+			} else if x, ok := e.lookup(phi); ok && x.fn == nil && len(x.tup) == 0 {
+				env.vars[key] = typedTerm{t: e.peekTerm(x, phi.Type()), typ: phi.Type()}
+			}
+		}
+	}
 	var tt typedTerm
 	if asAssumption {
-		tt = env.tr(x)
+		tt = env.trAssume(x)
 	} else {
 		tt = env.trGoal(x)
 	}
@@ -778,8 +885,20 @@ func (e *Exec) finishInvariants() {
 			}
 			defer func() { e.cur = saved }()
 			for k, inv := range pi.spec.invariant {
+				e.root().goalGroups = invGroups(inv)
 				t := e.invExpr(inv.expr, l.head, vals, false)
-				e.obls = append(e.obls, Obligation{Name: fmt.Sprintf("%s.loop%d.inv%d.step@%d", e.w.fnKey(e.fn), l.ordinal, k+1, lt.Index), Kind: "inv", Cond: e.edgeCond(lt, l.head), Goal: t, Pos: l.head.Instrs[0].Pos(), Fn: e.w.fnKey(e.fn)})
+				e.root().goalGroups = nil
+				if inv.name != "" && len(lt.Preds) > 1 && l.blocks[lt] && lt != l.head {
+					// a grouped invariant is proved separately for every path into a joining latch (smaller queries)
+					for _, p := range lt.Preds {
+						if e.subset != nil && !e.subset[p] {
+							continue
+						}
+						e.obls = append(e.obls, Obligation{Name: fmt.Sprintf("%s.loop%d.inv%d.step@%d.%d", e.w.fnKey(e.fn), l.ordinal, k+1, lt.Index, p.Index), Kind: "inv", Cond: and(e.edgeCond(p, lt), e.edgeCond(lt, l.head)), Goal: t, Pos: l.head.Instrs[0].Pos(), Fn: e.w.fnKey(e.fn), Groups: invGroups(inv)})
+					}
+					continue
+				}
+				e.obls = append(e.obls, Obligation{Name: fmt.Sprintf("%s.loop%d.inv%d.step@%d", e.w.fnKey(e.fn), l.ordinal, k+1, lt.Index), Kind: "inv", Cond: e.edgeCond(lt, l.head), Goal: t, Pos: l.head.Instrs[0].Pos(), Fn: e.w.fnKey(e.fn), Groups: invGroups(inv)})
 			}
 		}
 	}
